@@ -355,12 +355,24 @@ def name_of(node) -> str:
 
 
 def arm_tests(func_node, target):
-    """Tests of the `if`/`elif` arms whose *body* contains target (outermost first)."""
+    """Tests of the `if`/`elif` arms whose *body* contains target (outermost first).  A `match` arm whose
+    subject is a tuple and whose pattern is a tuple of literals contributes one synthetic `subject_k ==
+    literal_k` test per component (a scalar subject with a literal pattern likewise)."""
     out = []
     for lst, i in enclosing_chain(func_node, target):
         s = lst[i]
         if isinstance(s, ast.If) and any(any(x is target for x in ast.walk(b)) for b in s.body):
             out.append(s.test)
+        if isinstance(s, ast.Match):
+            for case in s.cases:
+                if not any(any(x is target for x in ast.walk(b)) for b in case.body):
+                    continue
+                subs = s.subject.elts if isinstance(s.subject, ast.Tuple) else [s.subject]
+                pats = case.pattern.patterns if isinstance(case.pattern, ast.MatchSequence) else [case.pattern]
+                if len(subs) == len(pats):
+                    for sub, pat in zip(subs, pats):
+                        if isinstance(pat, ast.MatchValue):
+                            out.append(ast.Compare(left=sub, ops=[ast.Eq()], comparators=[pat.value]))
     return out
 
 
